@@ -76,6 +76,7 @@ class Screen(_raw_display_base.Screen):
 
         # These store the previous signal handlers after setting ours
         self._prev_sigcont_handler = None
+        self._sigcont_hooked = False  # SIGCONT is only taken over between suspend and resume
         self._prev_sigtstp_handler = None
         self._prev_sigwinch_handler = None
 
@@ -100,6 +101,7 @@ class Screen(_raw_display_base.Screen):
     def _sigtstp_handler(self, signum: int, frame: FrameType | None = None) -> None:
         self.stop()  # Restores the previous signal handlers
         self._prev_sigcont_handler = self.signal_handler_setter(signal.SIGCONT, self._sigcont_handler)
+        self._sigcont_hooked = True
         # Handled by the previous handler.
         # If non-default, it may set its own SIGCONT handler which should hopefully call our own.
         os.kill(os.getpid(), signal.SIGTSTP)
@@ -108,12 +110,13 @@ class Screen(_raw_display_base.Screen):
         """
         frame -- will always be None when the GLib event loop is being used.
         """
+        prev_sigcont_handler = self._prev_sigcont_handler
         self.signal_restore()
 
-        if callable(self._prev_sigcont_handler):
+        if callable(prev_sigcont_handler):
             # May set its own SIGTSTP handler which would be stored and replaced in
             # `signal_init()` (via `start()`).
-            self._prev_sigcont_handler(signum, frame)
+            prev_sigcont_handler(signum, frame)
 
         self.start()
         self._sigwinch_handler(28, None)
@@ -138,7 +141,11 @@ class Screen(_raw_display_base.Screen):
         applications.
         """
         self.signal_handler_setter(signal.SIGTSTP, self._prev_sigtstp_handler or signal.SIG_DFL)
-        self.signal_handler_setter(signal.SIGCONT, self._prev_sigcont_handler or signal.SIG_DFL)
+        if self._sigcont_hooked:
+            # only undo our own SIGCONT handler; otherwise the application's handler would be reset to SIG_DFL
+            self.signal_handler_setter(signal.SIGCONT, self._prev_sigcont_handler or signal.SIG_DFL)
+            self._sigcont_hooked = False
+            self._prev_sigcont_handler = None
         self.signal_handler_setter(signal.SIGWINCH, self._prev_sigwinch_handler or signal.SIG_DFL)
 
     def _mouse_tracking(self, enable: bool) -> None:
